@@ -19,6 +19,23 @@ fn short(b: &[u8]) -> String {
     format!("{}b:{}", b.len(), b[..n].iter().map(|x| format!("{:02x}", x)).collect::<String>())
 }
 
+/// (blob, number of records seen by the tap) for every blob: equal lists = the stored records are the same
+pub fn record_counts(ctx: &RunCtx) -> Vec<(usize, usize)> {
+    ctx.world.inner.borrow().phys.iter().map(|(b, v)| (*b, v.len())).collect()
+}
+
+/// C03, first sentence: close + open yields the same answers as before the close. Both sides are
+/// compared with the model; a key whose answers differed from the stored records before the close
+/// and agree with them after the reopen was answered differently by the two sessions.
+pub fn restart_changed_answers(ctx: &Rc<RunCtx>, what: &str) {
+    let Some(before) = ctx.mismatch_before_close.borrow_mut().take() else { return };
+    let after = ctx.mismatch_keys_last.borrow().0.clone();
+    for k in before.difference(&after) {
+        ctx.world.probe("restart_changed_an_answer");
+        ctx.violate(&["C03"], "restart-changes-answer", "queries of a key were answered differently before the close and after the reopen (only the answers after the reopen agree with the stored records)", format!("key {} {}", k, what));
+    }
+}
+
 fn props_for(phase: &str) -> (Vec<&'static str>, Vec<&'static str>) {
     match phase {
         "step" => (vec!["C01"], vec!["C02"]),
@@ -151,6 +168,7 @@ where
         BTreeSet::new()
     };
 
+    let mut mismatching: BTreeSet<u8> = BTreeSet::new();
     for ki in 0..plan.n_keys {
         let kb = key_bytes(ki, ctx.key_len);
         let key: K = K::from(kb.clone());
@@ -356,6 +374,9 @@ where
         }
         // one defect, one report: mismatches of a key that has a partially written record collapse
         // into a single finding
+        if ctx.violations.borrow().len() > nviol_before_key {
+            mismatching.insert(ki);
+        }
         if is_partial_key && ctx.violations.borrow().len() > nviol_before_key {
             let first_detail = ctx.violations.borrow()[nviol_before_key].detail.clone();
             ctx.violations.borrow_mut().truncate(nviol_before_key);
@@ -367,5 +388,5 @@ where
     }
     ctx.state_hash.set(state_h);
     world.set_query_phase(false);
-    let _ = BTreeSet::<u8>::new();
+    *ctx.mismatch_keys_last.borrow_mut() = (mismatching, record_counts(ctx));
 }
